@@ -146,7 +146,7 @@ def check(ctx):
 
     # ---------------- oracles through the public classes: expanded basis vectors and fits
     from symfc import Symfc
-    cells = [("tri1", (2, 2, 1)), ("tri2_P1", (1, 1, 1)), ("mono_P", (1, 1, 1)), ("tri1", (2, 1, 2)), ("hcp", (1, 1, 1)), ("sheared", (1, 1, 1))]
+    cells = [("tri1", (2, 2, 1)), ("tri2_P1", (1, 1, 1)), ("mono_P", (1, 1, 1)), ("tri1", (2, 1, 2)), ("hcp", (1, 1, 1)), ("sheared", (1, 1, 1)), ("tri1", (3, 1, 1)), ("p4_general", (1, 1, 1))]
     if not ctx.quick:
         cells += [("tri1", (2, 2, 2)), ("tri1", (3, 1, 1)), ("ortho_C", (1, 1, 2)), ("mono_C", (1, 1, 1)), ("bcc_conv", (1, 1, 2)), ("rhombo1", (2, 2, 1)), ("tri2_Pm1", (2, 1, 1))]
     for cname, diag in cells:
